@@ -139,6 +139,19 @@ def run_subprocess(tool, argv, cwd, home, stdin_text="", repo=None, timeout=120,
     env["PYTHONPATH"] = repo
     code = "import sys; from evo import entry_points, main_config; sys.argv=['evo_%s']+sys.argv[1:]; " % tool
     code += "main_config.main()" if tool == "config" else "entry_points.%s()" % tool
+    if stdin_text and stdin_text.startswith("<PTY>"):
+        # the answers are typed at a terminal: standard input is a pseudo-terminal
+        import pty
+        master, slave = pty.openpty()
+        proc = subprocess.Popen([sys.executable, "-c", code] + list(argv), cwd=cwd, env=env, stdin=slave,
+                                stdout=subprocess.PIPE, stderr=subprocess.PIPE, text=True)
+        os.close(slave)
+        try:
+            os.write(master, stdin_text[5:].encode())
+            out, err = proc.communicate(timeout=timeout)
+        finally:
+            os.close(master)
+        return subprocess.CompletedProcess(proc.args, proc.returncode, out, err)
     if closed_stdout:
         p = subprocess.run([sys.executable, "-c", code] + list(argv), cwd=cwd, env=env, input=stdin_text, text=True,
                            stderr=subprocess.PIPE, timeout=timeout, preexec_fn=lambda: os.close(1))
